@@ -83,6 +83,8 @@ def report_a_failures(run, fails, bounded=()):
         hit = None
         for bd in bounded:
             for (ic, case, res, function, oname) in bd.failures:
+                if run._match_known(f'{bd.obligation}|{ic}') is not None:
+                    continue        # inputs of a known finding are not evidence for a different obligation
                 if function and (function == fn or (len(function) > 6 and function in fn)):
                     hit = (case, res, oname)
                     break
